@@ -308,28 +308,32 @@ theorem rightWF_of_asc {raw : Bool} {l : List RightRow} (h : l.Pairwise fun a b 
   rw [List.pairwise_map]
   exact h.imp (by intro a b hab _; simpa using hab)
 
-/-- **replay in ascending date order always succeeds** -/
-theorem parseGroup_sorted (raw : Bool) (g : GroupRow) :
-    ∃ a, parseGroup raw (sortGroup false g) = .ok a := by
-  unfold parseGroup sortGroup
+/-- a replay succeeds whenever every list, in the order given, is date-ordered per key -/
+structure GroupOrdered (raw : Bool) (g : GroupRow) : Prop where
+  rights : RightWF (g.rights.map (RightRow.toRight raw))
+  users : UserWF (g.users.map UserRow.toUser)
+  userAdmins : UserWF (g.userAdmins.map UserRow.toUser)
+
+theorem parseGroup_of_wf {raw : Bool} {g : GroupRow} (h : GroupOrdered raw g) :
+    ∃ a, parseGroup raw g = .ok a := by
+  unfold parseGroup
+  rw [addRights_of_wf (by simpa using h.rights)]
   simp only
-  rw [addRights_of_wf (by simpa using rightWF_of_asc (sortRights_asc g.rights))]
+  rw [addUsers_of_wf (by simpa using h.users)]
   simp only
-  rw [addUsers_of_wf (by simpa using userWF_of_asc (sortUsers_asc g.users))]
-  simp only
-  rw [addUsers_of_wf (by simpa using userWF_of_asc (sortUsers_asc g.userAdmins))]
+  rw [addUsers_of_wf (by simpa using h.userAdmins)]
   exact ⟨_, rfl⟩
 
-theorem parseGroups_sorted (raw : Bool) (r : Room) (gs : List GroupRow)
-    (hn : ((r.auths.map (·.id)) ++ gs.map (·.gid)).Nodup) :
-    ∃ r', parseGroups raw r (gs.map (sortGroup false)) = .ok r' := by
+theorem parseGroups_of_wf (raw : Bool) (r : Room) (gs : List GroupRow)
+    (hn : ((r.auths.map (·.id)) ++ gs.map (·.gid)).Nodup) (hg : ∀ g ∈ gs, GroupOrdered raw g) :
+    ∃ r', parseGroups raw r gs = .ok r' := by
   induction gs generalizing r with
   | nil => exact ⟨r, rfl⟩
   | cons g t ih =>
-    obtain ⟨a, ha⟩ := parseGroup_sorted raw g
+    obtain ⟨a, ha⟩ := parseGroup_of_wf (hg g (List.mem_cons_self ..))
     have hp := parseGroup_ok ha
     have hid : a.id = g.gid := hp.id
-    simp only [List.map_cons, parseGroups, ha]
+    simp only [parseGroups, ha]
     have hno : r.auths.any (·.id = a.id) = false := by
       rw [Bool.eq_false_iff]
       intro hany
@@ -340,15 +344,47 @@ theorem parseGroups_sorted (raw : Bool) (r : Room) (gs : List GroupRow)
       unfold Room.addAuth; simp [hno]
     rw [hadd]
     apply ih
-    simp only [List.map_append, List.map_cons, List.map_nil, hid]
-    simpa [List.append_assoc] using hn
+    · simp only [List.map_append, List.map_cons, List.map_nil, hid]
+      simpa [List.append_assoc] using hn
+    · intro x hx; exact hg x (List.mem_cons_of_mem _ hx)
 
+theorem parseRoom_of_wf {raw : Bool} {rr : RoomRow} (hn : (rr.groups.map (·.gid)).Nodup)
+    (ha : UserWF (rr.admins.map UserRow.toUser)) (hg : ∀ g ∈ rr.groups, GroupOrdered raw g) :
+    ∃ r, parseRoom raw rr = .ok r := by
+  unfold parseRoom
+  rw [addUsers_of_wf (by simpa using ha)]
+  exact parseGroups_of_wf raw _ rr.groups (by simpa using hn) hg
+
+theorem sortGroup_asc_ordered (raw : Bool) (g : GroupRow) : GroupOrdered raw (sortGroup false g) :=
+  ⟨rightWF_of_asc (sortRights_asc g.rights), userWF_of_asc (sortUsers_asc g.users),
+   userWF_of_asc (sortUsers_asc g.userAdmins)⟩
+
+/-- **replay in ascending date order always succeeds** -/
 theorem parseRoom_sorted (raw : Bool) (rr : RoomRow) (hn : (rr.groups.map (·.gid)).Nodup) :
     ∃ r, parseRoom raw (exportRoom Defects.none rr) = .ok r := by
-  unfold parseRoom exportRoom
-  simp only [Defects.none]
-  rw [addUsers_of_wf (by simpa using userWF_of_asc (sortUsers_asc rr.admins))]
-  exact parseGroups_sorted raw _ rr.groups (by simpa using hn)
+  apply parseRoom_of_wf
+  · have : (exportRoom Defects.none rr).groups.map (·.gid) = rr.groups.map (·.gid) := by
+      simp only [exportRoom, List.map_map]
+      apply List.map_congr_left
+      intro g _; rfl
+    rw [this]; exact hn
+  · exact userWF_of_asc (sortUsers_asc rr.admins)
+  · intro g hg
+    simp only [exportRoom, List.mem_map] at hg
+    obtain ⟨g0, _, rfl⟩ := hg
+    exact sortGroup_asc_ordered raw g0
+
+/-- in a list where entries of one key all carry the same date, any order is date-ordered -/
+theorem gwf_of_singleDate {α : Type} (key : α → Nat) (date : α → Int) {l : List α}
+    (h : ∀ a ∈ l, ∀ b ∈ l, key a = key b → date a = date b) : GWF key date l := by
+  unfold GWF
+  induction l with
+  | nil => exact List.Pairwise.nil
+  | cons x t ih =>
+    refine List.pairwise_cons.mpr ⟨?_, ih (fun a ha b hb => h a (List.mem_cons_of_mem _ ha) b (List.mem_cons_of_mem _ hb))⟩
+    intro b hb hk
+    have := h x (List.mem_cons_self ..) b (List.mem_cons_of_mem _ hb) hk
+    omega
 
 /-! ### agreement between an in-memory room and stored rows -/
 
